@@ -22,6 +22,13 @@ BOUNDS = {
 }
 OUTSIDE = ["reversed links for vectors (excluded by the statement)", "non-centre targets", "open edges under a rule other than fill 0 when a face is rotated", "float rounding"]
 ASSUMPTIONS = ["input data finite"]
+SWEEPS = {"int64": 2}
+
+
+def sweep_applies(cfg, flavor):
+    return cfg.get("kind") == "faces"
+
+
 COORDS = {"X": {"center": "xc", "left": "xg"}, "Y": {"center": "yc", "left": "yg"}}
 
 
@@ -56,6 +63,9 @@ def case(W, cfg):
     # global C-grid fluxes: U[y][x] through the low-x edge of cell (x,y) (x = 0..W), V[y][x] through the low-y edge
     Ua = W.data("U", (H, Wd + 1))
     Va = W.data("V", (H + 1, Wd))
+    if not W.sym and W.flavor == "int64":
+        # components of different dtypes: integer x-fluxes, fractional float y-fluxes
+        Va = Va.astype(float) + 0.5
 
     def edgeflux(c, d):
         x, y = c
@@ -78,8 +88,8 @@ def case(W, cfg):
         return A[yy, xx]
 
     nt = 2 if "t" in cfg["lay"] else 1
-    u = np.empty((nt, F, N, N), dtype=Ua.dtype)
-    v = np.empty((nt, F, N, N), dtype=Ua.dtype)
+    u = np.empty((nt, F, N, N), dtype=object if W.sym else float)
+    v = np.empty((nt, F, N, N), dtype=object if W.sym else float)
     scale = [1, 3]
     for tt in range(nt):
         for f in range(F):
@@ -95,6 +105,13 @@ def case(W, cfg):
         warnings.simplefilter("ignore")
         grid = xgcm.Grid(ds, coords=COORDS, periodic=False, boundary="fill", fill_value=0,
                          face_connections={"face": table}, autoparse_metadata=False)
+    if not W.sym and W.flavor == "int64":
+        # local components are +-U / +-V of whole faces only when no face is rotated; keep a dtype split per local
+        # component anyway: u integer-typed when its values are integers
+        if np.all(u == np.round(u)):
+            u = u.astype(np.int64)
+        if np.all(v == np.round(v)):
+            v = v.astype(np.int64)
     if nt == 2:
         uda = xr.DataArray(u, dims=["t", "face", "yc", "xg"])
         vda = xr.DataArray(v, dims=["t", "face", "yg", "xc"])
@@ -112,8 +129,8 @@ def case(W, cfg):
         rv = rv.transpose(*canon).data
         if nt == 1:
             ru, rv = ru[None], rv[None]
-        wu = np.empty((nt, F, N, N), dtype=Ua.dtype)
-        wv = np.empty((nt, F, N, N), dtype=Ua.dtype)
+        wu = np.empty((nt, F, N, N), dtype=object if W.sym else float)
+        wv = np.empty((nt, F, N, N), dtype=object if W.sym else float)
         for tt in range(nt):
             for f in range(F):
                 ex, ey = orient[f]
